@@ -448,7 +448,7 @@ def run_history(fam, perm, kinds, placed, timeout=60):
     for s in battery(fam, perm):
         ops.append(sym_arg(s))
         expect.append((s, tuple(perm)))
-    ops += ["err", "dump"]
+    ops += ["fptrs", "err", "dump"]
     r = tools.run_stable([ctx["exe"]] + ops, b, timeout=timeout)
     info = {"rc": r.rc, "timeout": r.timeout}
     if r.timeout:
@@ -457,8 +457,8 @@ def run_history(fam, perm, kinds, placed, timeout=60):
         return ["observer exited with status %s%s: %s" % (r.rc, " (sanitizer report)" if r.sanitizer else "",
                                                          r.err[-600:])], info
     lines = [l for l in r.out.splitlines() if l.startswith("{")]
-    if len(lines) != len(expect) + 2:
-        return ["observer printed %d results for %d operations" % (len(lines), len(expect) + 2)], info
+    if len(lines) != len(expect) + 3:
+        return ["observer printed %d results for %d operations" % (len(lines), len(expect) + 3)], info
     dump_line = lines[-1]
     errflag = json.loads(lines[-2])
     problems = []
@@ -473,6 +473,27 @@ def run_history(fam, perm, kinds, placed, timeout=60):
             _STATE_CACHE.clear()
         _STATE_CACHE[hkey] = st
     problems += st["problems"]
+    # ---- every wrapper index resolves back to ITS module's function pointer table
+    fp = json.loads(lines[-3])
+    seq = {}
+    for t, kd in zip(perm, kinds):
+        if kd == "m":
+            seq[t] = len(seq) + 1
+    nres = 0
+    for idx, t in st["wrappers"]:
+        want = 0
+        if t in seq and t in st["first"]:
+            want = (seq[t] << 24) + (idx - st["first"][t]) + 1
+            nres += 1
+        got = fp["ptr"][idx] if idx < len(fp["ptr"]) else None
+        if got != want or bool(fp["has"][idx]) != bool(want):
+            problems.append("wrapper index %d of library %s: interrogate_wrapper_pointer gives %s (has_pointer %s), "
+                            "its module's table entry is %s" % (idx, t, got, fp["has"][idx], want or "null (no table)"))
+            break
+    for idx in (0, len(fp["ptr"]) - 1):
+        if fp["ptr"][idx] != 0 or fp["has"][idx]:
+            problems.append("index %d lies outside every module range but resolves to pointer %s" % (idx, fp["ptr"][idx]))
+    info["resolved"] = nres
     info["state"] = st["hash"]
     info["raw"] = hkey[3][:12]
     info["winners"] = st["winners"]
@@ -598,7 +619,10 @@ def judge_state(fam, perm, kinds, d):
         if r is not None:
             winners.append("%s=%s" % (n[2:], r.get("lib")))
     return {"problems": problems[:12], "hash": m.masked_hash(c), "names": c.names,
-            "winners": ";".join(winners)}
+            "winners": ";".join(winners),
+            "wrappers": sorted((int(i), libtag.get(w["lib"])) for i, w in d["wrappers"].items()),
+            "first": {libtag[m_["library_name"]]: m_["first_index"] for m_ in d["modules"]
+                      if m_["library_name"] in libtag}}
 
 
 def chunk_worker(arg):
